@@ -272,3 +272,61 @@ class SeenSetClear(SeenSetModel):
 
 
 CONTRACTS = [SeenSetCheck, SeenSetAdd, SeenSetClear]
+
+
+class IndexedCacheCheck(LibModel):
+    """IndexedCache.check: the coverage question is asked for the lookup restricted to the cache's keys, and its answer
+    is returned unchanged (SeenSet.check's own contract does the rest)."""
+    qual = 'cache_data:IndexedCache.check'
+    cls = 'IndexedCache'
+    props = ('C20', 'C05')
+    modes = ('sound',)
+
+    def modenv(self):
+        return base_modenv()
+
+    def setup(self, eng):
+        st = State()
+        self.me = z3.Const('self', Z.Node)
+        st.locals['self'] = ZV(self.me, 'node')
+        a = Z.ZMap.fresh('asg')
+        d = eng.new_dict(st, a)
+        st.locals['assignment'] = d
+        st.ghost['a_ref'] = d.ref
+        st.ghost['a0'] = a
+        self.keys = z3.Const('cache_keys', Z.ArrIB)
+        self.answer = z3.Bool('seen_set_answer')
+        return [st]
+
+    def getattr(self, eng, st, recv, name):
+        if isinstance(recv, ZV) and recv.ty == 'node' and recv.t.eq(self.me):
+            if name == 'keys':
+                return [(st, Obj('keylist', {'ids': self.keys}))]
+            if name == 'seen_set':
+                return [(st, Obj('seenset'))]
+        return super().getattr(eng, st, recv, name)
+
+    def obj_seenset_check(self, eng, st, recv, args, kwargs, node):
+        (d,) = args
+        st = st.clone()
+        st.ghost['asked'] = st.dicts[d.ref] if isinstance(d, D) else None
+        return [(st, ZV(self.answer, 'bool'))]
+
+    def on_exit(self, eng, o):
+        st = o.st
+        if o.sig != RETURN:
+            eng.oblige(st, "C20/cache-check/returns", z3.BoolVal(False))
+            return
+        asked = st.ghost.get('asked')
+        want = st.ghost['a0'].restrict(self.keys)
+        eng.oblige(st, "C20/cache-check/asks-for-the-lookup-restricted-to-the-keys",
+                   asked.same(want) if asked is not None else z3.BoolVal(False))
+        eng.oblige(st, "C20/cache-check/returns-the-coverage-answer",
+                   eng.to_z3_bool(eng.truth(st, o.val)) == self.answer)
+        eng.oblige(st, "C20/cache-check/does-not-modify-the-lookup", st.dicts[st.ghost['a_ref']].same(st.ghost['a0']))
+
+    def signature(self, ob, model):
+        return {}
+
+
+CONTRACTS += [IndexedCacheCheck]
